@@ -1899,10 +1899,17 @@ class H2Connection:
         )
         try:
             stream = self._get_stream_by_id(frame.stream_id)
-        except NoSuchStreamError:
-            # The stream is missing. That's ok, we just do nothing here.
+        except StreamClosedError:
+            # The stream is closed and forgotten. That's ok, we just do
+            # nothing here.
             stream_frames = []
             stream_events = []
+        except NoSuchStreamError:
+            # RFC 7540 Section 6.4: RST_STREAM frames MUST NOT be sent for a
+            # stream in the "idle" state.
+            raise ProtocolError(
+                "Received RST_STREAM on idle stream %d" % frame.stream_id
+            )
         else:
             stream_frames, stream_events = stream.stream_reset(frame)
 
